@@ -33,6 +33,23 @@ fn main() {
     }
     let mut src = String::new();
     std::io::stdin().read_to_string(&mut src).unwrap();
+    if std::env::args().any(|a| a == "bytecode") {
+        // the byte code the compiler emits for one program under the configuration of this process
+        // (used when a difference between configurations is written up)
+        let mut engine = steel::steel_vm::engine::Engine::new();
+        match engine.emit_raw_program_no_path(src.clone()) {
+            Ok(p) => match engine.debug_build_strings(p) {
+                Ok(lines) => {
+                    for l in lines {
+                        println!("{}", l);
+                    }
+                }
+                Err(e) => println!("error: {}", e),
+            },
+            Err(e) => println!("error: {}", e),
+        }
+        return;
+    }
     std::panic::set_hook(Box::new(|_| {}));
     for prog in src.split("\n;;;===\n") {
         if prog.trim().is_empty() {
